@@ -15,7 +15,7 @@ CHECKS["C03"] = _c("lexical guard analysis of ygot.diff + skip-reason and empty-
     "Decides the guards of diff (delete ⇔ absent in modified; update ⇔ !reflect.DeepEqual; additions ⇔ absent in original ∧ no IgnoreAdditions), PathToString-keyed leaf maps, cloned parent paths, and that no diff code appends onto a slice it does not own.")
 CHECKS["C04"] = _c("provenance analysis of destination sinks in the copy family",
     "Decides that every value written into a DeepCopy/Merge destination is fresh, the destination's own, or a source value proved non-reference by a dominating guard; deepCopy copies into a fresh root; MergeStructs merges into the deep copy.")
-CHECKS["C05"] = _c("copy-family provenance + option-forwarding lint + interface-identity lint (== / map key on reflect Interface() values only for list map keys)",
+CHECKS["C05"] = _c("copy-family provenance + option-forwarding lint + interface-identity lint + unset-source and binary-leaf merge rules (by-value fields copied only when set; list merge never applied to Binary)",
     "Decides that merge options reach every recursive copy call, that MergeStructs deep-copies a and never uses an input as destination, and the copy-family sink discipline.")
 CHECKS["C06"] = _c("abstract evaluation of isInRange over 13 orderings + unit (byte/rune, reaching definitions) and sign-conversion lints + memo-key completeness of the regexp cache (parameter dependence analysis)",
     "Decides that isInRange is the closed interval under every weak ordering of (val,min,max), isInRanges is ∃ with empty⇒true, lengths are counted in the RFC's units, every pattern is checked without early success, and no byte/rune or sign confusion exists in the validators and the pattern sanitizer.")
@@ -31,7 +31,7 @@ CHECKS["C12"] = _c("sibling rule on recursive descents + write gating + wildcard
     "Decides that every descent that can run under delete is followed by an emptiness test and removal, that all removals are gated by args.delete, and that '*' is literal for DeleteNode.")
 CHECKS["C13"] = _c("statement-order and loop-shape analysis of ytypes/gnmi.go",
     "Decides the phase order delete ≺ replace ≺ update, per-replace delete-then-write, in-order iteration with the prefix joined, that no notification/path is skipped, and the atomic prefix delete.")
-CHECKS["C14"] = _c("flag monotonicity + guard analysis of pruneBranchesInternal",
+CHECKS["C14"] = _c("flag monotonicity + guard analysis of pruneBranchesInternal (lexical facts, and control-flow path facts over go/cfg where branches share a tail) + slice-emptiness lint (Binary is a value)",
     "Decides that the result flag is monotone, every Set writes a zero value into an empty struct-pointer/ordered-map field, ordered maps are recognised before dereference, and leaf fields are compared with their zero value.")
 CHECKS["C16"] = _c("type-table agreement for key kinds + exact-key-comparison, integer-base, constant-format, sign-conversion and wildcard-guard lints",
     "Decides that every supported key kind has a string form and both parsers, that binary keys are rejected by the generator, that no sign-changing conversion formats a key and that '*' is literal outside GetNode's wildcard option.")
@@ -44,7 +44,7 @@ CHECKS["C21"] = _c("global-write, lockset, shared-parameter store and append-own
 
 CHECKS["C17"] = _c("guard analysis of enumFieldToString/castToEnumValue + map-range single-result lint",
     "Decides that the library's enum name<->value helpers treat exactly 0 as unset, return names only after successful ΛMap lookups, error on unknown values, use the type's own ΛMap with no package state and compare names modulo module prefix on both sides.")
-CHECKS["C20"] = _c("panic-class lints over the static call closure of the nine entry points (unchecked type assertions, uncomparable interface ==, reflective call arity, explicit panic)",
+CHECKS["C20"] = _c("panic-class lints over the static call closure of the nine entry points (unchecked type assertions, uncomparable interface ==, reflective call arity, explicit panic) + inductive (value, encoding) pairing invariant over the unmarshal call graph for the *TypedValue assertions",
     "Decides absence of three syntactically visible panic classes in everything statically reachable from the listed entry points; index bounds, nil dereferences and panics inside reflect are not decided.")
 CHECKS["C30"] = _c("error-drop discipline, match-result guards, lock-step cursor rule and partial-key guard (lexical dominance over AST + go/types)",
     "Decides that leafref errors are dropped only under IgnoreMissingData, that the iterator returns every helper error, that matchesNodes reports a match only after an equality test (or for an empty source), that dataNodesAtPath moves its data and memo cursors together and caches under the looked-up path, and that a missing key is tolerated only when absent.")
